@@ -222,6 +222,9 @@ def compile_ok(root: str) -> bool:
     return r.returncode == 0
 
 
+SEED = [0]
+
+
 def one_mutant(m: Any, tier: str) -> Dict[str, Any]:
     mid, props, edits, desc = m
     root = scratch_copy()
@@ -233,7 +236,7 @@ def one_mutant(m: Any, tier: str) -> Dict[str, Any]:
             return res
         for pid in props:
             t0 = time.time()
-            rc, out = run_check(pid, root, tier)
+            rc, out = run_check(pid, root, tier, SEED[0])
             kinds = [ln.strip() for ln in out.splitlines() if ln.strip().startswith("kind=")]
             res["results"][pid] = {"rc": rc, "caught": rc == 1, "kinds": [k[:160] for k in kinds[:3]], "wall": round(time.time() - t0, 1),
                                    "tail": out[-400:] if rc != 1 else ""}
@@ -255,7 +258,7 @@ def one_seeded(sd: str, tier: str) -> Dict[str, Any]:
             return res
         for pid in meta.get("checks", [meta["property"]]):
             t0 = time.time()
-            rc, out = run_check(pid, root, tier)
+            rc, out = run_check(pid, root, tier, SEED[0])
             kinds = [ln.strip() for ln in out.splitlines() if ln.strip().startswith("kind=")]
             res["results"][pid] = {"rc": rc, "caught": rc == 1, "kinds": [k[:160] for k in kinds[:3]], "wall": round(time.time() - t0, 1),
                                    "tail": out[-400:] if rc != 1 else ""}
@@ -271,7 +274,9 @@ def main() -> int:
     ap.add_argument("--jobs", type=int, default=4)
     ap.add_argument("--tier", default="quick")
     ap.add_argument("--out", default=os.path.join(VERIF, "selftest_report.json"))
+    ap.add_argument("--seed", type=int, default=0)
     a = ap.parse_args()
+    SEED[0] = a.seed
     jobs: List[Any] = []
     if a.seeded:
         sroot = os.path.join(VERIF, "seeded")
